@@ -4,7 +4,7 @@
      {a:"Reset", beh}                                            a fresh, never written document
      {a:<action>, i, o}                                          o = the REAL state after the step, projected into the spec's
                                                                  observable record (Import.tla: doc, meta, pcF/pcG/pcW, out)
-       actions: ExtSet ExtDelete ExtUx SGMeta Feed FeedBegin FeedRel Cache Get GetBegin GetRel Write WriteBegin WriteRel;
+       actions: Conflict ExtSet ExtDelete ExtUx SGMeta Feed FeedBegin FeedRel Cache Get GetBegin GetRel Write WriteBegin WriteRel;
        i = body version (ExtSet), user-xattr version (ExtUx), captured event (Feed, FeedBegin, Cache), write number (the three Write actions), else 0
      {a:"End", drained}                                          the harness delivered every mutation not yet delivered to the
                                                                  import listener (logged as Feed lines) and read the document
@@ -37,7 +37,7 @@ TInit == Init /\ l = 1 /\ bi = -1 /\ diverged = FALSE /\ ended = FALSE /\ draine
 
 Reset == /\ Ev("Reset")
          /\ o' = [doc |-> NoDoc, meta |-> NoMeta, pcF |-> "idle", pcG |-> "idle", pcW |-> "idle", out |-> NoOut]
-         /\ h' = [evs |-> <<>>, fl |-> NoSnap, gl |-> NoSnap, wl |-> NoW, nv |-> 0, sq |-> 0]
+         /\ h' = [evs |-> <<>>, fl |-> NoSnap, gl |-> NoSnap, wl |-> NoW, nv |-> 0, sq |-> 0, cf |-> FALSE]
          /\ last' = [who |-> "none", body |-> 0, del |-> TRUE] /\ lastUx' = 0 /\ nExt' = 0 /\ nUx' = 0 /\ nSG' = 0 /\ nMeta' = 0
          /\ evOwn' = <<>> /\ fed' = {} /\ inF' = 0 /\ inW' = 0 /\ dirtyG' = FALSE /\ dirtyW' = FALSE
          /\ pre' = [act |-> "Init", i |-> 0, settled |-> TRUE, revs |-> <<>>, seq |-> 0, cas |-> 0, cv |-> 0, has |-> FALSE, cur |-> 0, mouCas |-> 0, ucrc |-> 0]
@@ -52,11 +52,12 @@ GhostOf(a) ==
     [] a = "ExtDelete" -> GhostExt([who |-> "ext", body |-> 0, del |-> TRUE])
     [] a = "ExtUx"     -> GhostExtUx(S.i)
     [] a = "SGMeta"    -> GhostSGMeta
+    [] a = "Conflict"  -> GhostConflict
     [] a \in {"Feed", "FeedBegin", "FeedRel"} -> GhostFeed(a, S.i)
     [] a = "Cache"     -> GhostCache(S.i)
     [] a \in {"Get", "GetBegin", "GetRel"} -> GhostGet(a)
     [] a \in {"Write", "WriteBegin", "WriteRel"} -> GhostWrite(a)
-Acts == {"ExtSet", "ExtDelete", "ExtUx", "SGMeta", "Feed", "FeedBegin", "FeedRel", "Cache", "Get", "GetBegin", "GetRel", "Write", "WriteBegin", "WriteRel"}
+Acts == {"Conflict", "ExtSet", "ExtDelete", "ExtUx", "SGMeta", "Feed", "FeedBegin", "FeedRel", "Cache", "Get", "GetBegin", "GetRel", "Write", "WriteBegin", "WriteRel"}
 
 (* ---- pass P ---- *)
 PStep == /\ l <= TraceLen /\ S.a \in Acts /\ l' = l + 1
@@ -91,6 +92,7 @@ ImplOf(a) ==
   CASE a = "ExtSet"     -> OKExtSet /\ S.i = nExt + 1 /\ ImplExtSet(S.i)
     [] a = "ExtDelete"  -> ~o.doc.del /\ ReadWriteIdle /\ ImplExtDelete
     [] a = "ExtUx"      -> ~o.doc.del /\ ReadWriteIdle /\ S.i = nUx + 1 /\ ImplExtUx(S.i)
+    [] a = "Conflict"   -> o.doc.cas = 0 /\ ImplConflict(S.i = 1)
     [] a = "SGMeta"     -> o.meta.has /\ ~o.doc.del /\ ImplSGMeta
     [] a = "Feed"       -> o.pcF = "idle" /\ S.i \in 1..Len(h.evs) /\ ImplFeed(S.i)
     [] a = "FeedBegin"  -> o.pcF = "idle" /\ S.i \in 1..Len(h.evs) /\ ImplFeedBegin(S.i)
